@@ -5,6 +5,7 @@ import NbdimeProofs.Lemmas.ApplyKeywise
 import NbdimeProofs.Lemmas.KeywiseMore
 import NbdimeProofs.Lemmas.ApplyChoose
 import NbdimeProofs.Lemmas.MergeCells
+import NbdimeProofs.Lemmas.MixedStage
 import NbdimeProofs.Lemmas.JsonEq
 import NbdimeProofs.Lemmas.NbWf
 import NbdimeProofs.Properties.C01
@@ -398,6 +399,84 @@ theorem C09_model_keywise_all (E : Env) (base : List (String × J)) (ld rd : Lis
     C09_model_keywise_choose_remote E base ld rd ds R hc hwfL hwfR hagree hR h⟩
 
 
+open Merge in
+/-- the merged diff does not depend on which side is called local: the two unions are permutations of each other -/
+theorem unionDiff_swap_perm (ld rd : List Op) (hndL : (ld.map Op.skey).Nodup) (hndR : (rd.map Op.skey).Nodup)
+    (hagree : ∀ el ∈ ld, ∀ er ∈ rd, el.skey = er.skey → el = er) : (unionDiff rd ld).Perm (unionDiff ld rd) := by
+  have nd : ∀ (a b : List Op), (a.map Op.skey).Nodup → (b.map Op.skey).Nodup → (unionDiff a b).Nodup := by
+    intro a b ha hb
+    unfold unionDiff
+    have ofmap : ∀ (l : List Op), (l.map Op.skey).Nodup → l.Nodup := fun l h =>
+      List.Pairwise.of_map Op.skey (fun x y hne hxy => hne (by rw [hxy])) h
+    refine List.nodup_append.mpr ⟨ofmap a ha, List.Pairwise.filter _ (ofmap b hb), ?_⟩
+    intro x hx y hy hxy
+    subst hxy
+    simp only [List.mem_filter, Bool.not_eq_true', List.contains_eq_mem, decide_eq_false_iff_not] at hy
+    exact hy.2 (List.mem_map_of_mem hx)
+  rw [List.perm_ext_iff_of_nodup (nd rd ld hndR hndL) (nd ld rd hndL hndR)]
+  intro e
+  unfold unionDiff
+  simp only [List.mem_append, List.mem_filter, Bool.not_eq_true', List.contains_eq_mem, decide_eq_false_iff_not]
+  constructor
+  · rintro (h | ⟨h, _⟩)
+    · by_cases hk : e.skey ∈ ld.map Op.skey
+      · obtain ⟨el, hel, hkey⟩ := List.mem_map.mp hk
+        have := hagree el hel e h hkey
+        subst this
+        exact Or.inl hel
+      · exact Or.inr ⟨h, hk⟩
+    · exact Or.inl h
+  · rintro (h | ⟨h, _⟩)
+    · by_cases hk : e.skey ∈ rd.map Op.skey
+      · obtain ⟨er, her, hkey⟩ := List.mem_map.mp hk
+        have := hagree e h er her hkey.symm
+        subst this
+        exact Or.inl her
+      · exact Or.inr ⟨h, hk⟩
+    · exact Or.inl h
+
+open Merge in
+/-- **C05, side symmetry, on the key-wise domain**: exchanging the local and the remote role gives the same merged
+    document, and no conflict either way — every strategy table, every oracle -/
+theorem C05_model_keywise_symmetric (E : Env) (base : List (String × J)) (ld rd : List Op) (ds1 ds2 : List MD) (X : J)
+    (hc : (J.obj base).canonical = true) (hwfL : wf (.obj base) ld = true) (hwfR : wf (.obj base) rd = true)
+    (hagree : ∀ el ∈ ld, ∀ er ∈ rd, el.skey = er.skey → el = er)
+    (hX : patch (.obj base) (ld ++ rd.filter (fun e => !(ld.map Op.skey).contains e.skey)) = .ok X)
+    (h1 : decideMerge E (.obj base) ld rd = .ok ds1) (h2 : decideMerge E (.obj base) rd ld = .ok ds2) :
+    applyDecisions (.obj base) (ds1.map MD.toDecision) = .ok X ∧ applyDecisions (.obj base) (ds2.map MD.toDecision) = .ok X ∧
+      (∀ d ∈ ds1, d.conflict = false) ∧ (∀ d ∈ ds2, d.conflict = false) := by
+  obtain ⟨a1, a2⟩ := C09_model_keywise_apply E base ld rd ds1 X hc hwfL hwfR hagree hX h1
+  rw [wf] at hwfL hwfR
+  obtain ⟨hmapL, hndL, _⟩ := wfObj_shape base ld [] hwfL
+  obtain ⟨hmapR, hndR, _⟩ := wfObj_shape base rd [] hwfR
+  have hagree' : ∀ el ∈ rd, ∀ er ∈ ld, el.skey = er.skey → el = er := fun el hel er her hk => (hagree er her el hel hk.symm).symm
+  obtain ⟨b, rfl, hb0, hperm, hndU, hUmap⟩ := keywise_decisions E base rd ld ds2 hmapR hndR hmapL hndL hagree' h2
+  have hsw := unionDiff_swap_perm ld rd hndL hndR hagree
+  change patch (.obj base) (unionDiff ld rd) = .ok X at hX
+  have heffAll : ∀ e ∈ unionDiff ld rd, (mapEff base e).isSome = true := by
+    rw [patch] at hX
+    simp only [bind, Except.bind] at hX
+    cases hpd : patchDict base (unionDiff ld rd) [] [] with
+    | error er => simp [hpd] at hX
+    | ok R => exact fun e he => (patchDict_ok_eff base _ [] [] R hpd e he).2
+  have hndU' : ((unionDiff ld rd).map Op.skey).Nodup := (hsw.map Op.skey).nodup_iff.mp hndU
+  refine ⟨a1, ?_, a2, fun d hd => by
+    obtain ⟨s, e, rfl, _⟩ := hb0 d (mem_sortDesc b d hd)
+    exact mkSide_noconf s e⟩
+  rw [← hX]
+  apply apply_entries base hc b entryOf (unionDiff ld rd)
+  · intro d hd
+    obtain ⟨s, e, rfl, he, _⟩ := hb0 d hd
+    rw [entryOf_mkSide s (hUmap e he)]
+    exact mkSide_ent s (hUmap e he)
+  · intro d hd
+    obtain ⟨s, e, rfl, he, _⟩ := hb0 d hd
+    rw [entryOf_mkSide s (hUmap e he)]
+    exact heffAll e (hsw.subset he)
+  · exact hperm.trans hsw
+  · exact hndU'
+
+
 theorem ascPatchB_spec : ∀ (lo : Nat) (d : List Op), Merge.ascPatchB lo d = true → AscPatch lo d
   | _, [], _ => trivial
   | lo, .patchI j dd :: rest, h => by
@@ -448,6 +527,91 @@ theorem C06_model_cells (E : Env) (base : J) (ld rd : List Op) (ds : List MD) (X
       | str _ => simp [hl] at hlk
       | obj _ => simp [hl] at hlk
   · cases hcw
+
+open Merge in
+theorem entryAt_spec {k : String} {d : List Op} {e : Op} (h : entryAt k d = some e) : e ∈ d ∧ e.skey = k := by
+  unfold entryAt at h
+  have h1 := List.find?_some h
+  exact ⟨List.mem_of_find?_eq_some h, by simpa using h1⟩
+
+open Merge in
+theorem mixedParts_spec {base : J} {k : String} {ld rd : List Op} {kvs : List (String × J)} {xs : List J} {dL dR : List Op}
+    (h : mixedParts base k ld rd = some (kvs, xs, dL, dR)) :
+    base = .obj kvs ∧ lookupKV k kvs = some (.arr xs) ∧ Op.patchK k dL ∈ ld ∧ Op.patchK k dR ∈ rd := by
+  unfold mixedParts at h
+  split at h
+  · rename_i kvs'
+    split at h
+    · rename_i xs' k1 dL' k2 dR' h1 h2 h3
+      simp only [Option.some.injEq, Prod.mk.injEq] at h
+      obtain ⟨rfl, rfl, rfl, rfl⟩ := h
+      obtain ⟨m2, s2⟩ := entryAt_spec h2
+      obtain ⟨m3, s3⟩ := entryAt_spec h3
+      simp only [Op.skey] at s2 s3
+      subst s2
+      subst s3
+      exact ⟨rfl, h1, m2, m3⟩
+    · cases h
+  · cases h
+
+open Merge in
+/-- **C06 on the mixed domain** (`Merge.mixedwise`, decidable, evaluated by the driver): the two sides edit different
+    items of the list under root key `k` (the cells of a notebook) — neither inserts or removes items — and on every
+    other root key (notebook metadata, format fields) they change it on one side only or in the same way. Then, whenever
+    the merge returns decisions and the two diffs apply one after the other, `apply_decisions ∘ decide_merge_with_diff`
+    gives exactly base with the local diff and then the remaining remote entries applied, and no decision is a conflict —
+    for every strategy table and every oracle. -/
+theorem C06_model_mixed (E : Env) (base : J) (k : String) (ld rd : List Op) (ds : List MD) (X : J)
+    (hm : mixedwise base k ld rd = true) (hX : patchBothMixed base k ld rd = .ok X)
+    (h : decideMerge E base ld rd = .ok ds) :
+    applyDecisions base (ds.map MD.toDecision) = .ok X ∧ ∀ d ∈ ds, d.conflict = false := by
+  unfold mixedwise at hm
+  split at hm
+  · rename_i kvs xs dL dR hparts
+    obtain ⟨rfl, hk, hkL, hkR⟩ := mixedParts_spec hparts
+    simp only [Bool.and_eq_true, Bool.not_eq_true', List.all_eq_true, bne_iff_ne, ne_eq, Bool.or_eq_true, beq_iff_eq] at hm
+    obtain ⟨⟨⟨⟨⟨⟨⟨⟨⟨hc, hwl⟩, hwr⟩, hint⟩, haL⟩, haR⟩, hne⟩, hdis⟩, hpy⟩, hag⟩ := hm
+    have hwl' := hwl
+    have hwr' := hwr
+    rw [wf] at hwl' hwr'
+    obtain ⟨hmapL, hndL, _⟩ := wfObj_shape kvs ld [] hwl'
+    obtain ⟨hmapR, hndR, _⟩ := wfObj_shape kvs rd [] hwr'
+    have hcc := hc
+    simp only [J.canonical, Bool.and_eq_true] at hcc
+    have hb : SK kvs := keysSorted_sk kvs hcc.1
+    unfold patchBothMixed at hX
+    simp only [bind, Except.bind] at hX
+    cases hL : patch (.obj kvs) ld with
+    | error e => simp [hL] at hX
+    | ok L =>
+      simp only [hL] at hX
+      obtain ⟨RL, RX, hRL, hRX, hX'⟩ := mixed_two_stage kvs hb ld rd hndL hndR k xs dL dR hkL hkR hk L X hL hX
+      exact apply_mixed_obj E kvs ld rd ds X k xs dL dR RL RX hc hint hmapL hndL hmapR hndR hkL hkR
+        (fun el hel er her hkey hnk => by
+          rcases hag el hel er her with (h1 | h1) | h1
+          · exact absurd hkey h1
+          · exact absurd h1 hnk
+          · exact Op.beq_eq el er h1)
+        hk (ascPatchB_spec 0 dL haL) (ascPatchB_spec 0 dR haR) (fun e0 h0 e1 h1 => hdis e0 h0 e1 h1)
+        (by intro hnil; simp [hnil] at hne) hpy hRL hRX hX' h
+  · cases hm
+
+open Merge in
+/-- end to end for notebooks: `ld` and `rd` are the diffs the notebook differ computes from `base` to the local and to the
+    remote notebook (any sound table configuration). If they are in the mixed domain — different cells edited, other root
+    keys changed by one side or by both in the same way —, the merged document is the local notebook with the remaining
+    remote entries applied. -/
+theorem C06_notebook_mixed (E : Env) (O : Oracle) (hO : OracleOK O) (cfg : Cfg) (hcfg : cfgSoundB cfg = true)
+    (base l : J) (k : String) (ld rd : List Op) (ds : List MD) (X : J)
+    (cb : base.canonical = true) (cl : l.canonical = true) (hcl : Compat base l)
+    (hld : diffNotebooks O cfg base l = .ok ld)
+    (hm : mixedwise base k ld rd = true) (hX : patch l (mixedRest k ld rd) = .ok X)
+    (h : decideMerge E base ld rd = .ok ds) :
+    applyDecisions base (ds.map MD.toDecision) = .ok X ∧ ∀ d ∈ ds, d.conflict = false := by
+  have hL : patch base ld = .ok l := C01_roundtrip_partial O hO cfg hcfg base l ld cb cl hcl hld
+  apply C06_model_mixed E base k ld rd ds X hm ?_ h
+  unfold patchBothMixed
+  simp only [hL, bind, Except.bind, hX]
 
 open Merge in
 /-- end to end for notebooks: the local notebook `l` and the remote notebook `r` are diffed against `base` by the
